@@ -746,6 +746,42 @@ func helperEveryPath(f Fact, pred func(Fact) bool) bool {
 	return any && okAll
 }
 
+// holdsOnAllPaths: on every path from the function entry to block b some branch edge establishes a fact
+// satisfying pred (directly, through a guard helper's implied facts, or on every accepting path of a guard
+// helper). Joins are followed edge by edge; a loop back edge is answered conservatively (false).
+func holdsOnAllPaths(b *ssa.BasicBlock, pred func(Fact) bool) bool {
+	return holdsOnAllPathsRec(b, pred, map[*ssa.BasicBlock]bool{}, 0)
+}
+
+func holdsOnAllPathsRec(b *ssa.BasicBlock, pred func(Fact) bool, seen map[*ssa.BasicBlock]bool, depth int) bool {
+	if seen[b] || depth > 64 || len(b.Preds) == 0 {
+		return false
+	}
+	seen[b] = true
+	defer delete(seen, b)
+	for _, p := range b.Preds {
+		ok := false
+		if len(p.Instrs) > 0 {
+			if iff, isIf := p.Instrs[len(p.Instrs)-1].(*ssa.If); isIf && p.Succs[0] != p.Succs[1] {
+				f := factOf(iff.Cond, p.Succs[0] == b)
+				if pred(f) || helperEveryPath(f, pred) {
+					ok = true
+				} else {
+					for _, x := range expandHelperFact(f, 0) {
+						if pred(x) {
+							ok = true
+						}
+					}
+				}
+			}
+		}
+		if !ok && !holdsOnAllPathsRec(p, pred, seen, depth+1) {
+			return false
+		}
+	}
+	return true
+}
+
 // domFactsRaw / factsPerPredRaw: like DomFacts / FactsPerPred, with nested helper expansion bounded by depth.
 func domFactsRaw(b *ssa.BasicBlock, depth int) []Fact {
 	var out []Fact
